@@ -1,7 +1,7 @@
 //! C01 — state properties are exact derivatives of the model's Helmholtz energy.
-//! Oracle: every AD derivative getter vs Richardson finite difference of the
-//! next-lower-order getter on neighbouring states of the same model.
-use crate::fd::{best_dev, deriv, deriv_n, deriv_n_multi, deriv_t_or_v, serr};
+//! Oracle: every AD derivative getter vs Richardson finite differences (with measured
+//! error bars) of the next-lower-order getter on neighbouring states of the same model.
+use crate::fd::*;
 use crate::monitor::*;
 use crate::prng::Rng;
 use crate::stream::*;
@@ -14,9 +14,11 @@ use quantity::*;
 use serde_json::json;
 use std::sync::Arc;
 
-pub const H: f64 = 1e-3;
 pub const TOL: f64 = 1e-6;
 pub const TOL_CALORIC: f64 = 1e-5;
+/// finite differences whose own error bar exceeds this (scaled) are "unresolved"
+pub const UNRESOLVED: f64 = 1e-4;
+const HS: [f64; 3] = [1e-3, 1e-4, 4e-3];
 
 pub type Eos = EquationOfState<IdealGasModel, Model>;
 
@@ -81,7 +83,7 @@ pub fn joback_for(n: usize, rng: &mut Rng) -> Arc<IdealGasModel> {
 
 pub fn run(cfg: Config) -> i32 {
     let mut m = Monitor::new(cfg.clone());
-    let (reps, nstates) = stream_sizes(cfg.tier);
+    let (reps, nstates) = cfg.tier.pick((3, 16), (60, 100));
     let stream = build_stream(
         cfg.seed,
         "c01",
@@ -117,14 +119,51 @@ pub fn run(cfg: Config) -> i32 {
         "fewer than 20 caloric cases",
     );
     m.finish(
-        "states (T in [0.4,3] T_c-scale, density log-uniform/uniform in (1e-6,0.9) rho_max, open-simplex composition, N in [1e-3,1e3]) of random models of every family (shipped + perturbed records, pure/binary/ternary, k_ij); non-trivial = |A_res| > 1e-9 N k T; distinct by hash of (model label, T, rho, x, N)",
+        "states (T in [0.4,3] T_c-scale, density log-uniform/uniform in (1e-6,0.9) rho_max, open-simplex composition incl. dilute components, N in [1e-3,1e3]) of random models of every family (shipped + perturbed records, pure/binary/ternary, k_ij, EoS and functionals); non-trivial = |A_res| > 1e-9 N k T; distinct by hash of (model label, T, rho, x, N); an oracle evaluation whose finite difference has an error bar above 1e-4 is counted as skipped ('fd unresolved'), not as checked",
         false,
         &[
-            "finite-difference error model: central difference + one Richardson step at relative step 1e-3 (truncation ~1e-12, round-off ~1e-11 of the natural scale)",
+            "finite-difference error model: central/forward differences with one Richardson step at several step sizes; error bar = truncation estimate + measured function noise / step; deviation counted beyond 3 error bars",
             "verif hooks do not alter results (no floating-point code)",
             "rustc/LLVM IEEE-754 semantics",
         ],
     )
+}
+
+#[derive(Clone, Copy)]
+struct Ctx<'a> {
+    fam: &'a str,
+    case: u64,
+    mc: &'a ModelCase,
+    ss: &'a StateSpec,
+    tol: f64,
+}
+
+impl Ctx<'_> {
+    /// one oracle evaluation
+    #[allow(clippy::too_many_arguments)]
+    fn chk(&self, m: &mut Monitor, name: &str, ad: f64, ests: &[Est], i: usize, sign: f64, scale: f64) {
+        self.chk_sig(m, name, "", ad, ests, i, sign, scale)
+    }
+    #[allow(clippy::too_many_arguments)]
+    fn chk_sig(&self, m: &mut Monitor, name: &str, extra: &str, ad: f64, ests: &[Est], i: usize, sign: f64, scale: f64) {
+        let Some(j) = judge(ad, ests, i, sign, scale) else {
+            m.skip(name, "no finite-difference estimate");
+            return;
+        };
+        if j.relerr > UNRESOLVED {
+            m.skip(name, "fd unresolved");
+            return;
+        }
+        let sig = if extra.is_empty() {
+            format!("{}|{}", self.fam, name)
+        } else {
+            format!("{}|{}|{}", self.fam, name, extra)
+        };
+        let (model, ss) = (&self.mc.spec, self.ss);
+        m.check(name, &sig, self.case, j.dev, self.tol, || {
+            json!({"clause": name, "contribution": extra, "model": model, "state": ss.json(), "ad": fnum(ad), "fd": fnum(j.fd), "fd_error_bar_scaled": fnum(j.relerr)})
+        });
+    }
 }
 
 fn check_state(m: &mut Monitor, case: u64, mc: &ModelCase, ss: &StateSpec) {
@@ -139,7 +178,7 @@ fn check_state(m: &mut Monitor, case: u64, mc: &ModelCase, ss: &StateSpec) {
     let ntot = ss.ntot;
     let o = obs(&st);
     if !o.a.is_finite() {
-        // a model that cannot be evaluated at this state (e.g. outside its range): not a C01 matter
+        // a model that cannot be evaluated at this state (outside its range): not a C01 matter
         m.skip("state", &format!("non-finite A ({})", mc.family));
         return;
     }
@@ -149,55 +188,52 @@ fn check_state(m: &mut Monitor, case: u64, mc: &ModelCase, ss: &StateSpec) {
         m.skip("state", "trivial");
         return;
     }
+    if !model_smooth_at(&mc.spec, t) {
+        m.skip("state", "model not differentiable here (PR alpha kink)");
+        return;
+    }
     let sa = energy_scale(&st);
-    let fam = mc.family.as_str();
-    // finite-difference noise model: residual properties lose ~1e-16/eta relative
-    // precision at low packing fraction (ln(1+eps) cancellation), divided by h
-    let tol = TOL * (1e-2 / ss.eta_frac).max(1.0);
-    let detail = |clause: &str, ad: f64, fd: f64| {
-        let model = mc.spec.clone();
-        let ss = ss.clone();
-        let clause = clause.to_string();
-        move || json!({"clause": clause, "model": model, "state": ss.json(), "ad": fnum(ad), "fd": fnum(fd)})
+    let cx = Ctx {
+        fam: mc.family.as_str(),
+        case,
+        mc,
+        ss,
+        // round-off model: residual properties lose ~1e-16/eta relative precision at
+        // low packing fraction (ln(1+eps) cancellation), amplified by 1/h
+        // (functionals carry the cancelling ideal-chain / hard-chain terms: x10)
+        tol: TOL * (1e-2 / ss.eta_frac).max(1.0) * if mc.family.ends_with("functional") { 10.0 } else { 1.0 },
     };
     if m.samples.len() < 3 {
         m.sample(json!({"model": mc.label(), "state": ss.json(), "A_res_over_NkT": o.a/(ntot*t)}));
     }
-
-    // one oracle evaluation: AD value vs the best of several FD estimates
-    let c = |m: &mut Monitor, name: &str, ad: f64, ests: &[Vec<f64>], i: usize, sign: f64, scale: f64| {
-        let (dev, fd) = best_dev(ad, ests, i, sign, scale * 1e-3);
-        let sig = format!("{fam}|{name}");
-        m.check(name, &sig, case, dev, tol, detail(name, ad, fd));
-    };
+    // floors: 1e-3 of the natural scale of each quantity
+    let fl = 1e-3;
 
     // ---- temperature direction
-    let f_t = |tt: f64| state_tvn(eos, tt, v, &n).map(|s| obs_vec(&s));
-    let d = deriv_t_or_v(f_t, t);
+    let d = ests_rel(|tt| state_tvn(eos, tt, v, &n).map(|s| obs_vec(&s)), t, &HS);
     if !d.is_empty() {
         let ds_dt = st.ds_res_dt().to_reduced();
         let d2s = st.d2s_res_dt2().to_reduced();
         let dp_dt = st.dp_dt(Contributions::Residual).to_reduced();
         let dmu_dt = st.dmu_res_dt().to_reduced();
-        c(m, "T:S=-dA/dT", o.s, &d, 0, -1.0, sa / t);
-        c(m, "T:dp/dT", dp_dt, &d, 1, 1.0, sa / (v * t));
-        c(m, "T:dS/dT", ds_dt, &d, 2, 1.0, sa / (t * t));
-        c(m, "T:d2S/dT2", d2s, &d, 3, 1.0, sa / (t * t * t));
+        cx.chk(m, "T:S=-dA/dT", o.s, &d, 0, -1.0, fl * sa / t);
+        cx.chk(m, "T:dp/dT", dp_dt, &d, 1, 1.0, fl * sa / (v * t));
+        cx.chk(m, "T:dS/dT", ds_dt, &d, 2, 1.0, fl * sa / (t * t));
+        cx.chk(m, "T:d2S/dT2", d2s, &d, 3, 1.0, fl * sa / (t * t * t));
         for i in 0..mc.n {
-            c(m, "T:dmu/dT", dmu_dt[i], &d, 5 + i, 1.0, sa / (ntot * t));
+            cx.chk(m, "T:dmu/dT", dmu_dt[i], &d, 5 + i, 1.0, fl * sa / (ntot * t));
         }
     } else {
         m.skip("T", "neighbour state failed");
     }
 
     // ---- volume direction
-    let f_v = |vv: f64| state_tvn(eos, t, vv, &n).map(|s| obs_vec(&s));
-    let d = deriv_t_or_v(f_v, v);
+    let d = ests_rel(|vv| state_tvn(eos, t, vv, &n).map(|s| obs_vec(&s)), v, &HS);
     if !d.is_empty() {
         let d2p = st.d2p_dv2(Contributions::Residual).to_reduced();
-        c(m, "V:p=-dA/dV", o.p, &d, 0, -1.0, sa / v);
-        c(m, "V:dp/dV", o.dp_dv, &d, 1, 1.0, sa / (v * v));
-        c(m, "V:d2p/dV2", d2p, &d, 4, 1.0, sa / (v * v * v));
+        cx.chk(m, "V:p=-dA/dV", o.p, &d, 0, -1.0, fl * sa / v);
+        cx.chk(m, "V:dp/dV", o.dp_dv, &d, 1, 1.0, fl * sa / (v * v));
+        cx.chk(m, "V:d2p/dV2", d2p, &d, 4, 1.0, fl * sa / (v * v * v));
     } else {
         m.skip("V", "neighbour state failed");
     }
@@ -206,24 +242,39 @@ fn check_state(m: &mut Monitor, case: u64, mc: &ModelCase, ss: &StateSpec) {
     let dp_dn = st.dp_dni(Contributions::Residual).to_reduced();
     let dmu_dn = st.dmu_dni(Contributions::Residual).to_reduced();
     for k in 0..mc.n {
+        // a dilute component in a dilute gas: the response of the residual Helmholtz
+        // energy to N_k is below the round-off of its dominant terms
+        if ss.eta_frac * ss.x[k] < if mc.family.ends_with("functional") { 1e-6 } else { 1e-7 } {
+            m.skip("N", "fd unresolved (dilute component at low density)");
+            continue;
+        }
         let f_n = |nk: f64| {
             let mut nn = n.clone();
             nn[k] = nk;
             state_tvn(eos, t, v, &nn).map(|s| obs_vec(&s))
         };
-        let d = deriv_n_multi(f_n, n[k], ntot);
+        let d = ests_n(f_n, n[k], ntot);
         if !d.is_empty() {
-            c(m, "N:mu=dA/dN", o.mu[k], &d, 0, 1.0, sa / ntot);
-            c(m, "N:dp/dN", dp_dn[k], &d, 1, 1.0, sa / (v * ntot));
+            // dilute component: the response to N_k is a small difference of large terms
+            let cxk = Ctx {
+                tol: cx.tol * (1e-5 / ss.x[k]).max(1.0),
+                ..cx
+            };
+            cxk.chk(m, "N:mu=dA/dN", o.mu[k], &d, 0, 1.0, fl * sa / ntot);
+            cxk.chk(m, "N:dp/dN", dp_dn[k], &d, 1, 1.0, fl * sa / (v * ntot));
             for i in 0..mc.n {
-                c(m, "N:dmu/dN", dmu_dn[[i, k]], &d, 5 + i, 1.0, sa / (ntot * ntot));
+                cxk.chk(m, "N:dmu/dN", dmu_dn[[i, k]], &d, 5 + i, 1.0, fl * sa / (ntot * ntot));
             }
         } else {
             m.skip("N", "neighbour state failed");
         }
     }
 
-    // ---- per-contribution first derivatives (localisation)
+    // ---- per-contribution first derivatives (localisation). Single contributions are
+    // only meaningful above the round-off / solver-tolerance floor of the total
+    if ss.eta_frac < 1e-3 {
+        return;
+    }
     let contrib_a = |s: &St| -> Vec<f64> {
         s.residual_helmholtz_energy_contributions()
             .iter()
@@ -235,36 +286,32 @@ fn check_state(m: &mut Monitor, case: u64, mc: &ModelCase, ss: &StateSpec) {
         .iter()
         .map(|(n, _)| n.clone())
         .collect();
-    let d = deriv_t_or_v(|vv| state_tvn(eos, t, vv, &n).map(|s| contrib_a(&s)), v);
+    let d = ests_rel(|vv| state_tvn(eos, t, vv, &n).map(|s| contrib_a(&s)), v, &HS);
     if !d.is_empty() {
         let pc = st.pressure_contributions();
         for (j, name) in names.iter().enumerate() {
             // pressure_contributions has the ideal gas as first entry
             let ad = pc[j + 1].1.to_reduced();
-            let cl = "V:p per contribution";
-            let (dev, fd) = best_dev(ad, &d, j, -1.0, sa / v * 1e-2);
-            let sig = format!("{fam}|{cl}|{name}");
-            m.check(cl, &sig, case, dev, tol, detail(&format!("{cl} {name}"), ad, fd));
+            cx.chk_sig(m, "V:p per contribution", name, ad, &d, j, -1.0, 1e-2 * sa / v);
         }
     }
     let k = (case % mc.n as u64) as usize;
     // single contributions (ideal chain, hard chain functional) are singular in the
     // amount of a dilute component (N_k ln rho_k); only their sum is smooth. The
     // per-contribution check therefore uses steps relative to N_k only.
-    let f_nk = |nk: f64| {
-        let mut nn = n.clone();
-        nn[k] = nk;
-        state_tvn(eos, t, v, &nn).map(|s| contrib_a(&s))
-    };
-    let d: Vec<Vec<f64>> = [1e-3, 1e-4].iter().filter_map(|&h| deriv(&f_nk, n[k], h)).collect();
-    if !d.is_empty() && ss.x[k] > 1e-3 {
-        let mc_ = st.residual_chemical_potential_contributions(k);
-        for (j, name) in names.iter().enumerate() {
-            let ad = mc_[j].1.to_reduced();
-            let cl = "N:mu per contribution";
-            let (dev, fd) = best_dev(ad, &d, j, 1.0, sa / ntot * 1e-2);
-            let sig = format!("{fam}|{cl}|{name}");
-            m.check(cl, &sig, case, dev, tol, detail(&format!("{cl} {name}"), ad, fd));
+    if ss.x[k] > 1e-3 {
+        let f_nk = |nk: f64| {
+            let mut nn = n.clone();
+            nn[k] = nk;
+            state_tvn(eos, t, v, &nn).map(|s| contrib_a(&s))
+        };
+        let d = ests_rel(f_nk, n[k], &[1e-3, 1e-4, 1e-2]);
+        if !d.is_empty() {
+            let mc_ = st.residual_chemical_potential_contributions(k);
+            for (j, name) in names.iter().enumerate() {
+                let ad = mc_[j].1.to_reduced();
+                cx.chk_sig(m, "N:mu per contribution", name, ad, &d, j, 1.0, 1e-2 * sa / ntot);
+            }
         }
     }
 }
@@ -272,6 +319,9 @@ fn check_state(m: &mut Monitor, case: u64, mc: &ModelCase, ss: &StateSpec) {
 /// caloric and fugacity-coefficient derivatives at constant pressure, by re-solving
 /// (T,p,N) states around a mechanically stable state.
 fn check_caloric(m: &mut Monitor, case: u64, mc: &ModelCase, ss: &StateSpec, seed: u64) {
+    if matches!(mc.spec.kind, Kind::Fmt) || !model_smooth_at(&mc.spec, ss.t) {
+        return;
+    }
     let mut rng = Rng::derive(seed, "c01-joback", case);
     let ig = joback_for(mc.n, &mut rng);
     let eos: Arc<Eos> = Arc::new(EquationOfState::new(ig, mc.eos.clone()));
@@ -289,7 +339,13 @@ fn check_caloric(m: &mut Monitor, case: u64, mc: &ModelCase, ss: &StateSpec, see
         m.skip("caloric", "not a stable single-phase state");
         return;
     }
-    let fam = mc.family.as_str();
+    let cx = Ctx {
+        fam: mc.family.as_str(),
+        case,
+        mc,
+        ss,
+        tol: TOL_CALORIC * (1e-2 / ss.eta_frac).max(1.0),
+    };
     let n = ss.moles();
     let rho0 = st.density;
     let npt = |tt: f64, pp: f64, nn: &Moles<Array1<f64>>| {
@@ -302,23 +358,7 @@ fn check_caloric(m: &mut Monitor, case: u64, mc: &ModelCase, ss: &StateSpec, see
         )
         .ok()
         // reject re-solves that jumped to another branch
-        .filter(|s| ((s.density / rho0).into_value() - 1.0).abs() < 0.05)
-    };
-    let detail = |clause: &str, ad: f64, fd: f64| {
-        let model = mc.spec.clone();
-        let ss = ss.clone();
-        let clause = clause.to_string();
-        move || json!({"clause": clause, "model": model, "state": ss.json(), "ad": fnum(ad), "fd": fnum(fd)})
-    };
-    let tol = TOL_CALORIC * (1e-2 / ss.eta_frac).max(1.0);
-    let chk = |m: &mut Monitor, name: &str, ad: f64, ests: &[Vec<f64>], i: usize, sign: f64, scale: f64| {
-        let (dev, fd) = best_dev(ad, ests, i, sign, scale);
-        let sig = format!("{fam}|{name}");
-        m.check(name, &sig, case, dev, tol, detail(name, ad, fd));
-    };
-    let steps = [1e-3, 1e-2, 1e-4];
-    let multi = |f: &dyn Fn(f64) -> Option<Vec<f64>>, x: f64| -> Vec<Vec<f64>> {
-        steps.iter().filter_map(|&h| deriv(f, x, h)).collect()
+        .filter(|s| ((s.density / rho0).into_value() - 1.0).abs() < 0.1)
     };
     let ncomp = mc.n;
     // observables at (T,p): h, s, ln phi_i
@@ -330,30 +370,43 @@ fn check_caloric(m: &mut Monitor, case: u64, mc: &ModelCase, ss: &StateSpec, see
         o.extend(s.ln_phi().iter());
         o
     };
+    let hs = [1e-3, 1e-2, 1e-4];
     let cp = st.molar_isobaric_heat_capacity(c).to_reduced();
     let cv = st.molar_isochoric_heat_capacity(c).to_reduced();
-    let d_t = multi(&|tt| npt(tt, p, &n).map(|s| f_tp(&s)), t);
+    let d_t = ests_rel(|tt| npt(tt, p, &n).map(|s| f_tp(&s)), t, &hs);
     if !d_t.is_empty() {
-        chk(m, "caloric:cp", cp, &d_t, 0, 1.0, 1.0);
-        let ds: Vec<Vec<f64>> = d_t.iter().map(|d| vec![t * d[1]]).collect();
-        chk(m, "caloric:cp=T ds/dT|p", cp, &ds, 0, 1.0, 1.0);
+        cx.chk(m, "caloric:cp", cp, &d_t, 0, 1.0, 1.0);
+        let ds: Vec<Est> = d_t
+            .iter()
+            .map(|e| Est {
+                d: vec![t * e.d[1]],
+                err: vec![t * e.err[1]],
+            })
+            .collect();
+        cx.chk(m, "caloric:cp=T ds/dT|p", cp, &ds, 0, 1.0, 1.0);
         let dlnphi_dt = st.dln_phi_dt().to_reduced();
         for i in 0..ncomp {
-            chk(m, "caloric:dlnphi/dT|p", dlnphi_dt[i], &d_t, 2 + i, 1.0, 0.1 / t);
+            cx.chk(m, "caloric:dlnphi/dT|p", dlnphi_dt[i], &d_t, 2 + i, 1.0, 0.1 / t);
         }
     } else {
         m.skip("caloric", "T re-solve failed");
     }
-    let d_p = multi(&|pp| npt(t, pp, &n).map(|s| f_tp(&s)), p);
+    let d_p = ests_rel(|pp| npt(t, pp, &n).map(|s| f_tp(&s)), p, &hs);
     if !d_p.is_empty() {
         let dlnphi_dp = st.dln_phi_dp().to_reduced();
         for i in 0..ncomp {
-            chk(m, "caloric:dlnphi/dp|T", dlnphi_dp[i], &d_p, 2 + i, 1.0, 1e-2 / p);
+            cx.chk(m, "caloric:dlnphi/dp|T", dlnphi_dp[i], &d_p, 2 + i, 1.0, 1e-2 / p);
         }
         // Joule-Thomson: mu_JT = -(dh/dp|T)/cp
         let jt = st.joule_thomson().to_reduced();
-        let e: Vec<Vec<f64>> = d_p.iter().map(|d| vec![-d[0] / cp]).collect();
-        chk(m, "caloric:joule_thomson", jt, &e, 0, 1.0, 1e-2 * t / p);
+        let e: Vec<Est> = d_p
+            .iter()
+            .map(|e| Est {
+                d: vec![-e.d[0] / cp],
+                err: vec![(e.err[0] / cp).abs()],
+            })
+            .collect();
+        cx.chk(m, "caloric:joule_thomson", jt, &e, 0, 1.0, 1e-2 * t / p);
     } else {
         m.skip("caloric", "p re-solve failed");
     }
@@ -363,35 +416,41 @@ fn check_caloric(m: &mut Monitor, case: u64, mc: &ModelCase, ss: &StateSpec, see
             .ok()
             .map(|s| vec![s.molar_internal_energy(c).to_reduced()])
     };
-    let d_u = multi(&f_u, t);
+    let d_u = ests_rel(f_u, t, &hs);
     if !d_u.is_empty() {
-        chk(m, "caloric:cv", cv, &d_u, 0, 1.0, 1.0);
+        cx.chk(m, "caloric:cv", cv, &d_u, 0, 1.0, 1.0);
     }
-    // speed of sound: w^2 = cp/cv * (-V^2/(N MW)) dp/dV|T with FD ingredients
-    let d_v = multi(
-        &|vv| {
+    // speed of sound: w^2 = cp/cv * (-V^2/(N MW)) dp/dV|T from the finite-difference
+    // ingredients with the smallest error bars (relative errors add)
+    let d_v = ests_rel(
+        |vv| {
             State::new_nvt(&eos, st.temperature, Volume::from_reduced(vv), &n)
                 .ok()
                 .map(|s| vec![s.pressure(c).to_reduced()])
         },
         v,
+        &hs,
     );
-    if !d_t.is_empty() && !d_u.is_empty() && !d_v.is_empty() && matches!(mc.spec.kind, Kind::Fmt) == false {
+    let best = |e: &[Est]| -> Option<(f64, f64)> {
+        e.iter()
+            .filter(|e| e.d[0].is_finite() && e.err[0].is_finite())
+            .min_by(|a, b| a.err[0].partial_cmp(&b.err[0]).unwrap())
+            .map(|e| (e.d[0], e.err[0]))
+    };
+    if let (Some((cpf, ecp)), Some((cvf, ecv)), Some((dpf, edp))) =
+        (best(&d_t), best(&d_u), best(&d_v))
+    {
         let w = st.speed_of_sound().to_reduced();
         let mw = st.total_molar_weight().to_reduced();
-        let mut e = Vec::new();
-        for a in &d_t {
-            for b in &d_u {
-                for cc in &d_v {
-                    let w2 = (a[0] / b[0]) * (-(v * v) * cc[0]) / (ntot * mw);
-                    if w2 > 0.0 {
-                        e.push(vec![w2.sqrt()]);
-                    }
-                }
-            }
-        }
-        if !e.is_empty() && w.is_finite() {
-            chk(m, "caloric:speed_of_sound", w, &e, 0, 1.0, 0.0);
+        let w2 = (cpf / cvf) * (-(v * v) * dpf) / (ntot * mw);
+        if w2 > 0.0 && w.is_finite() {
+            let wref = w2.sqrt();
+            let rel = 0.5 * ((ecp / cpf).abs() + (ecv / cvf).abs() + (edp / dpf).abs());
+            let e = vec![Est {
+                d: vec![wref],
+                err: vec![rel * wref],
+            }];
+            cx.chk(m, "caloric:speed_of_sound", w, &e, 0, 1.0, 0.0);
         }
     }
     // composition derivative at constant T,p
@@ -399,7 +458,7 @@ fn check_caloric(m: &mut Monitor, case: u64, mc: &ModelCase, ss: &StateSpec, see
         let dln = st.dln_phi_dnj().to_reduced();
         let nr = n.to_reduced();
         let j = (case % ncomp as u64) as usize;
-        let d = deriv_n_multi(
+        let d = ests_n(
             |nj| {
                 let mut nn = nr.clone();
                 nn[j] = nj;
@@ -410,7 +469,7 @@ fn check_caloric(m: &mut Monitor, case: u64, mc: &ModelCase, ss: &StateSpec, see
         );
         if !d.is_empty() {
             for i in 0..ncomp {
-                chk(m, "caloric:dlnphi/dN|T,p", dln[[i, j]], &d, i, 1.0, 0.1 / ntot);
+                cx.chk(m, "caloric:dlnphi/dN|T,p", dln[[i, j]], &d, i, 1.0, 0.1 / ntot);
             }
         }
     }
